@@ -381,7 +381,7 @@ func c07N(tier string) int {
 	if tier == "thorough" {
 		return 300000
 	}
-	return 10000
+	return 30000
 }
 
 func init() {
